@@ -1,5 +1,6 @@
 import FrappyModel.Spec.C04
 import FrappyProofs.Lemmas.ExtParams
+import FrappyProofs.Lemmas.Dispatch
 /-
 The chain of check functions computed from the class layout (`Node.chainOf`, modulebase.py 156-172) against the
 declarative reading over the layout (`Spec.C04.LayoutOK`, with C18's `AutoApplies`).
@@ -224,5 +225,38 @@ theorem chain_complete (env : Env V) (mod : Module J V) (attr : String) (v : V) 
         | succ j' => omega
       · simp only [chainOf, hown', Bool.false_eq_true, if_false, hf]
         exact ih (k + 1) stop' hl
+
+/-- outside the current limits, the automatic check applying and every programmer's hook passing: the chain computed
+from the layout objects, and with a RangeError -/
+theorem chain_refuses_range (env : Env V) (mod : Module J V) (attr : String) (v : V) (hlim : ¬ LimitsOK env mod attr v) :
+    ∀ (ls : List Layer) (k : Nat), AutoApplies ls none →
+      (∀ i, i < ls.length → ownAt ls i = true → env.chk mod.name attr (k + i) v = .pass) →
+      runChecks (checkOne env mod attr v) (chainOf ls k) = some (mkErr .rangeError) := by
+  intro ls
+  induction ls with
+  | nil => intro k h; obtain ⟨a, ha, _⟩ := h; simp at ha
+  | cons l rest ih =>
+    intro k happ hpass
+    have hrest : ∀ i, i < rest.length → ownAt rest i = true → env.chk mod.name attr (k + 1 + i) v = .pass := by
+      intro i hi hown
+      have := hpass (i + 1) (by simpa using hi) (by rw [ownAt_succ]; exact hown)
+      have e : k + (i + 1) = k + 1 + i := by omega
+      rw [← e]; exact this
+    have hsplit := autoApplies_cons_shift l rest none happ
+    by_cases hown : l.ownCheck = true
+    · have h0 := hpass 0 (by simp) (by rw [ownAt_zero]; exact hown)
+      rw [Nat.add_zero] at h0
+      simp only [chainOf, hown, if_true, runChecks, checkOne, h0]
+      rcases hsplit with ⟨hno, _⟩ | h'
+      · rw [hno] at hown; exact absurd hown (by simp)
+      · exact ih (k + 1) h' hrest
+    · have hown' : l.ownCheck = false := by simpa using hown
+      by_cases hf : isFirstDef l rest = true
+      · simp only [chainOf, hown', Bool.false_eq_true, if_false, hf, if_true, runChecks, checkOne,
+          Frappy.Lemmas.Dispatch.checkLimits_of_not_ok env mod attr v hlim]
+      · simp only [chainOf, hown', Bool.false_eq_true, if_false, hf]
+        rcases hsplit with ⟨_, hf'⟩ | h'
+        · exact absurd hf' hf
+        · exact ih (k + 1) h' hrest
 
 end Frappy.Node
